@@ -70,6 +70,15 @@ var props = map[string]*propCfg{
 	},
 }
 
+func init() {
+	seqAssume := []string{"single-threaded by construction: the simulated environment (clock, entropy, PRNG words, map order, I/O peers) is the only nondeterminism"}
+	props["C02"] = &propCfg{ID: "C02", Engine: "C", Pkgs: "listz", Imports: "time=stime,math/rand=smrand", Level: "exploration", QuickS: 20, ThorS: 480,
+		Real:   []string{"listz/skip.go, listz/skip_cmp.go, listz/iter.go (every statement)", "math/rand.Rand arithmetic on top of the simulated source"},
+		Stubs:  []string{"math/rand source (tower-height words from the run seed, per-run distribution)", "time.Now (seed of the list's PRNG)"},
+		Rule:   "cases = (list flavour and key type/comparator, start state New/Init/zero value, tower-word distribution, 2..60 operations over every method with bounds from present/absent/gap keys) drawn from the run seed; non-trivial = the list drew tower words under a non-production distribution or built a tower of >=3 levels, or started from the zero value; distinct = distinct hash of (params, operations, env seed) over such runs",
+		Assume: seqAssume}
+}
+
 var scratch string
 
 // replayDir overrides where replay files go (sensitivity runs keep them out of /verif).
